@@ -72,7 +72,7 @@ def simWrite (data : Bytes) (mode : String) (seed : Nat) : Option Bytes :=
   let k := ((parts.getD 2 "4").toNat?.getD 4)
   let pieces := chunksOf c (data.length + 1) data
   match parts.head? with
-  | some "write" | some "all" =>
+  | some "write" | some "all" | some "cwrite" | some "call" | some "fall" =>
     pieces.foldl (fun acc piece =>
       match acc with
       | none => none
@@ -104,7 +104,8 @@ def segsOf (fuel seed : Nat) (data : Bytes) : List Bytes :=
     `read_to_end` = `read_chunk(usize::MAX, false)` -/
 def readStep (api : String) (p : Nat) : RStep :=
   match api with
-  | "read" => .read p
+  | "read" | "cread" | "fread" | "cexact" => .read p   -- the compat wrappers poll `poll_read_impl` like `read`
+  | "fend" => .read 1024                               -- futures' `read_to_end`: `poll_read` into spare capacity
   | "chunk" | "uchunk" => .readChunk p
   | "chunks" => .readChunks p
   | _ => .readChunk (2 ^ 64 - 1)
@@ -184,6 +185,7 @@ structure DState where
   -- endpoint-level cases
   ep : Compio.QuicEndpoint.Ep := Compio.QuicEndpoint.Ep.init
   epends : List (Nat × Bool) := []   -- (line, done)
+  econns : List Nat := []            -- lines of `accept_bi()` futures on connections accepted while open
 
 def sideOf (s : String) : Option Nat :=
   if s == "c" then some 0 else if s == "s" then some 1 else none
@@ -467,7 +469,22 @@ def epStepAndRepoll (d : DState) (op : EOp) : DState × List (Nat × String) :=
 open Compio.QuicEndpoint in
 def endpointOp (ws : List String) (d : DState) : DState × String :=
   match ws with
-  | "ep" :: _ => ({ d with ep := Ep.init, epends := [] }, "ok")
+  | "ep" :: _ => ({ d with ep := Ep.init, epends := [], econns := [] }, "ok")
+  | ["take"] =>
+    -- a connection attempt is queued and handed to the caller of `wait_incoming()`
+    let e1 := (d.ep.step (.datagram true)).1
+    match e1.step (.poll 999999) with
+    | (e2, some .incoming) => ({ d with ep := e2 }, "ok")
+    | (_, some .none) => (d, "error:closed")
+    | (e2, _) => ({ d with ep := e2 }, "error:no incoming")
+  | ["refuse"] | ["retry"] | ["ignore"] => (d, "ok")
+  | ["accept"] =>
+    -- `Incoming::accept` → `EndpointState::new_connection`
+    let e1 := (d.ep.step .newConn).1
+    if d.ep.closed then
+      if e1.told > d.ep.told then ({ d with ep := e1 }, "accept=err:LocallyClosed")
+      else ({ d with ep := e1 }, "accept=ok conn=stranded")
+    else ({ d with ep := e1, econns := d.econns ++ [d.lineNo] }, "accept=ok")
   | ["pend"] =>
     let w := d.lineNo
     match d.ep.step (.poll w) with
@@ -478,7 +495,12 @@ def endpointOp (ws : List String) (d : DState) : DState × String :=
     let (d, outs) := epStepAndRepoll d (.datagram true)
     (d, s!"done={showDone true outs}")
   | ["close"] =>
+    let untoldBefore := d.ep.untold
     let (d, outs) := epStepAndRepoll d .close
+    -- the connections alive at the close were sent `ConnectionEvent::Close`: their futures fail
+    let outs := if d.ep.untold == 0 && untoldBefore ≥ d.econns.length
+      then outs ++ d.econns.map (fun l => (l, "err:LocallyClosed")) else outs
+    let d := { d with econns := [] }
     let stranded := (d.epends.filter (fun p => !p.2)).map fun p => toString p.1
     (d, s!"closed={showDone false outs} stranded=[{",".intercalate stranded}]")
   | ["shutdown"] =>
